@@ -12,7 +12,7 @@ import (
 // C03: faults at RPC indexes of Commit; the result class of Commit and the final MVCC truth go to the judge.
 // blackout-before / blackout-after (extension of the fault list): from the index on EVERY request of the committer is
 // dropped / every response is lost — the only way an RPC outcome stays unknown after the client's own retries.
-var c03Kinds = []string{"drop-before", "drop-after", "NotLeader", "EpochNotMatch", "ServerIsBusy", "StaleCommand", "split", "expire", "push", "blackout-before", "blackout-after"}
+var c03Kinds = []string{"drop-before", "drop-after", "NotLeader", "EpochNotMatch", "ServerIsBusy", "StaleCommand", "split", "expire", "push", "blackout-before", "blackout-after", "cancel-before", "cancel-after"}
 
 type c03Fault struct {
 	kind string
@@ -53,6 +53,11 @@ func addC03Fault(sr *shapeRun, f c03Fault, name string, r *vx.Rand) *side {
 		g.AddFault(&hub.Fault{Kind: hub.DropBefore, Client: a, N: f.at})
 	case "drop-after":
 		g.AddFault(&hub.Fault{Kind: hub.DropAfter, Client: a, N: f.at})
+	case "cancel-before":
+		// the caller's context of Commit ends while this request is outstanding: not executed / executed, answer not read
+		g.AddFault(&hub.Fault{Kind: hub.DropBefore, Client: a, N: f.at, Cancel: sr.cancel})
+	case "cancel-after":
+		g.AddFault(&hub.Fault{Kind: hub.DropAfter, Client: a, N: f.at, Cancel: sr.cancel})
 	case "blackout-before":
 		g.AddFault(&hub.Fault{Kind: hub.DropBefore, Client: a, N: f.at, Repeat: true})
 	case "blackout-after":
@@ -137,12 +142,71 @@ func c03Scenario(s shape, faults []c03Fault, r *vx.Rand) {
 	recoverAndAudit(w, s.keys, r, r.Intn(6), sr.a)
 }
 
+// c03Triple (directed): plain 2PC, the primary batch holds two or more keys of one region; three faults in a row on the commit
+// requests of the committer: the FIRST one (the primary batch's) is executed and its answer is lost; the region is split
+// between the batch's keys just before the retry, which is therefore refused with EpochNotMatch and re-grouped into
+// sub-batches; every later commit request is refused with a region error (no leader / busy / stale) until the commit
+// back-off budget is used up.  The commit point was reached and never acknowledged: Commit must answer `undetermined`.
+func c03Triple(r *vx.Rand) {
+	s := genShape(r)
+	for len(s.keys) < 2 {
+		s = genShape(r)
+	}
+	s.mode = "2pc"
+	s.stores = 1
+	// the primary's region holds at least two of the keys: one region, or a boundary above the two smallest keys
+	s.layout = nil
+	if len(s.keys) > 2 && r.Bool() {
+		s.layout = [][]byte{s.keys[len(s.keys)-1]}
+	}
+	if s.pess {
+		s.primary = r.Intn(2)
+	}
+	for i := range s.kinds {
+		if s.kinds[i] == "insdel" || s.kinds[i] == "lock" {
+			s.kinds[i] = "put"
+		}
+	}
+	sr := startShape(s, r)
+	w := sr.w
+	defer w.Close()
+	if !sr.ok || !sr.prepared {
+		return
+	}
+	g := w.Gate()
+	a := sr.a
+	g.AddFault(&hub.Fault{Kind: hub.DropAfter, Client: a, Match: isCommit})
+	// a split between the two smallest keys (both are in the primary batch)
+	sp := hub.SplitFault(s.keys[1])
+	sp.Client, sp.Match = a, isCommit
+	g.AddFault(sp)
+	class := pick(r, []string{"NotLeader", "NotLeader", "ServerIsBusy", "RegionNotFound"})
+	g.AddFault(&hub.Fault{Kind: hub.RegionErr, Client: a, Class: class, Match: isCommit, Repeat: true})
+	rec.Count("c03:triple:" + class)
+	res, ret := sr.final()
+	if !ret {
+		return
+	}
+	rec.Count("c03:triple:result:" + res)
+	if !w.WaitDrained(scenarioTimeout) {
+		w.Hang("drain")
+		return
+	}
+	g.ClearFaults()
+	recoverAndAudit(w, s.keys, r, r.Intn(6), a)
+}
+
 func runC03() {
 	nShapes := 60
 	if run.Thorough() {
 		nShapes = 600
 	}
 	nShapes = scaled(nShapes)
+	asyncRecoveryFamily(rnd.Fork(), 4)
+	for i := 0; i < 12; i++ {
+		c03Triple(rnd.Fork())
+		rec.Count("c03:family:triple")
+	}
 	for n := 0; n < nShapes; n++ {
 		r := rnd.Fork()
 		s := genShape(r)
